@@ -125,7 +125,8 @@ func TestC17Sched(t *testing.T) {
 			return c.Next()
 		})
 		app.Use(idempotency.New(idempotency.Config{Lock: lk, Storage: st, Lifetime: time.Hour,
-			KeepResponseHeaders: []string{"X-Exec", "X-Multi", "Set-Cookie"}}))
+			// names as a configuration file would spell them: header names are case-insensitive
+			KeepResponseHeaders: []string{"x-exec", "X-MULTI", "Set-Cookie", "X-only-1", "x-ONLY-2", "X-Only-3", "x-only-4", "X-ONLY-5"}}))
 		app.Add([]string{"POST", "GET"}, "/", func(c fiber.Ctx) error {
 			p := s.procID()
 			s.gate("handler", event{"ev": "handler"})
@@ -136,6 +137,7 @@ func TestC17Sched(t *testing.T) {
 			c.Response().Header.Add("X-Multi", "one, uno")
 			c.Response().Header.Add("X-Multi", "two")
 			c.Set("X-Dropped", "not kept")
+			c.Set("X-Only-"+strconv.Itoa(p), "1") // a header name no other execution sends
 			c.Cookie(&fiber.Cookie{Name: "sid", Value: "v" + strconv.Itoa(p)})
 			if p%2 == 0 {
 				return c.SendStatus(204) // empty body
@@ -157,13 +159,19 @@ func TestC17Sched(t *testing.T) {
 				rc := doReqH(h, method, "/", hdr...)
 				resp := c17Resp{Status: rc.Response.StatusCode(), Body: string(rc.Response.Body())}
 				var hs []string
+				only := []int{}
 				rc.Response.Header.VisitAll(func(k, v []byte) {
 					switch string(k) {
 					case "X-Exec", "X-Multi", "Set-Cookie":
 						hs = append(hs, string(k)+"="+string(v))
 					}
+					if n, err := strconv.Atoi(strings.TrimPrefix(string(k), "X-Only-")); err == nil && strings.HasPrefix(string(k), "X-Only-") {
+						hs = append(hs, string(k)+"="+string(v))
+						only = append(only, n)
+					}
 				})
 				sort.Strings(hs)
+				sort.Ints(only)
 				resp.Headers = strings.Join(hs, "|")
 				kind, exec := "error", 0
 				if resp.Status < 500 {
@@ -176,7 +184,7 @@ func TestC17Sched(t *testing.T) {
 				s.mu.Lock()
 				resps[id] = resp
 				s.mu.Unlock()
-				s.log(event{"ev": "end", "p": id, "kind": kind, "exec": exec, "status": resp.Status})
+				s.log(event{"ev": "end", "p": id, "kind": kind, "exec": exec, "status": resp.Status, "only": only})
 			})
 		}
 		ex := &execCtl{s: s}
